@@ -21,6 +21,8 @@ struct Model {
     first_seen_gen: BTreeMap<usize, u32>,
     open: BTreeMap<u64, Session>,
     max_clients: usize,
+    /// the limit was lowered at run time in this case (the statement's bound on the count does not apply then)
+    ever_lowered: bool,
     events: u32,
     refused_when_full: u32,
 }
@@ -49,7 +51,9 @@ impl Model {
                 if let Some((other, _)) = self.open.iter().find(|(_, s)| s.addr == *addr) {
                     return Err(Fail::new("address_shared", format!("ClientConnected for id {client_id} from {addr}, which is the address of connected id {other}")));
                 }
-                if connected_before >= self.max_clients {
+                // the bound is stated for limits that are not lowered at run time: a handshake challenged before a lowering may still
+                // complete into a slot above the new limit
+                if !self.ever_lowered && connected_before >= self.max_clients {
                     return Err(Fail::new("over_capacity", format!("ClientConnected for id {client_id} while {connected_before} clients were connected and max_clients is {}", self.max_clients)));
                 }
                 if from != Some(*addr) {
@@ -122,7 +126,9 @@ impl Model {
         if s.connected_clients() != ids.len() {
             return Err(Fail::new("count_mismatch", format!("connected_clients() = {}, clients_id() has {}", s.connected_clients(), ids.len())));
         }
-        if ids.len() > self.max_clients {
+        // lowering the limit does not disconnect anybody: until enough clients have left, the bound is the number that were connected
+        // when it was lowered (it only ever shrinks)
+        if !self.ever_lowered && ids.len() > self.max_clients {
             return Err(Fail::new("over_capacity", format!("{} clients connected, max_clients is {}", ids.len(), self.max_clients)));
         }
         let open: BTreeSet<u64> = self.open.keys().copied().collect();
@@ -146,16 +152,16 @@ impl Property for C10 {
         "exploration"
     }
     fn rule(&self) -> String {
-        "A case = secure server with max_clients 1-4 (raised at run time in some cases, never lowered), up to 8 client objects over 4 identities and 5 addresses (several tokens per identity, several clients per address, one token per client object), spawned at any time. Steps: lossy honest handshake steps, server ticks with lossy keep-alive delivery and clock steps up to beyond the timeout, client disconnects (delivered or lost), server.disconnect(id), genuine payloads, replays of any earlier client datagram from its own or another address, raising the limit. Oracles after every step: clients_id pairwise distinct, client_addr pairwise distinct, connected_clients == |clients_id| <= max_clients; the outputs ClientConnected / ClientDisconnected alternate per id, a disconnect names the id and address of the open connect, none without one, a connect never happens while the server is full nor for an id or address already connected, its id / address / user data are those of the triggering client's token; a session is ended by a datagram only if that is its own client's unmodified disconnect packet; the set of ids in the table equals the set opened by the event stream; lookups by id return the authenticated session's address and user data; a genuine payload of a session surfaces under its id. Non-trivial: >= 2 sessions open or half-open at once and >= 1 refused, raced or replayed handshake. Distinct = hash of the decoded operation trace.".into()
+        "A case = secure server with max_clients 1-4 (raised and lowered at run time in some cases), up to 8 client objects over 4 identities and 5 addresses (several tokens per identity, several clients per address, one token per client object), spawned at any time. Steps: lossy honest handshake steps, server ticks with lossy keep-alive delivery and clock steps up to beyond the timeout, client disconnects (delivered or lost), server.disconnect(id), genuine payloads, replays of any earlier client datagram from its own or another address, raising and lowering the limit (the bound on the count is only asserted in cases that never lower it, as the statement says; everything else is asserted always). Oracles after every step: clients_id pairwise distinct, client_addr pairwise distinct, connected_clients == |clients_id| <= max_clients; the outputs ClientConnected / ClientDisconnected alternate per id, a disconnect names the id and address of the open connect, none without one, a connect never happens while the server is full nor for an id or address already connected, its id / address / user data are those of the triggering client's token; a session is ended by a datagram only if that is its own client's unmodified disconnect packet; the set of ids in the table equals the set opened by the event stream; lookups by id return the authenticated session's address and user data; a genuine payload of a session surfaces under its id. Non-trivial: >= 2 sessions open or half-open at once and >= 1 refused, raced or replayed handshake. Distinct = hash of the decoded operation trace.".into()
     }
     fn assumptions(&self) -> Vec<String> {
-        vec!["one token per client object (re-using a token for a second session re-uses its keys; outside the statement)".into(), "max_clients is never lowered at run time in these cases".into()]
+        vec!["one token per client object (re-using a token for a second session re-uses its keys; outside the statement)".into(), "lowering max_clients disconnects nobody (set_max_clients changes the limit only)".into()]
     }
     fn pbt(&self, tier: Tier) -> PbtCfg {
         PbtCfg { cases: tier.pick(300_000, 5_000_000), max_len: tier.pick(600, 2000), shrink_ms: 120_000 }
     }
     fn required_labels(&self) -> Vec<&'static str> {
-        vec!["two_open", "same_id_two_pending", "same_addr_two_tokens", "full_refused", "timeout_disconnect", "client_disconnect", "server_disconnect", "replay", "limit_raised", "payload_ok"]
+        vec!["two_open", "same_id_two_pending", "same_addr_two_tokens", "full_refused", "timeout_disconnect", "client_disconnect", "server_disconnect", "replay", "limit_raised", "limit_lowered", "payload_ok"]
     }
     fn run_choices(&self, ctx: &mut Ctx) -> Outcome {
         let mut nw = NetWorld::new(ctx.src.u16() as u64);
@@ -167,7 +173,7 @@ impl Property for C10 {
         }
         let token_key = if unsecure { [0u8; 32] } else { key(1) };
         nw.servers.push(mk_server(0, 1, PROTO, max_clients, nw.now, !unsecure));
-        let mut m = Model { generation: BTreeMap::new(), first_seen_gen: BTreeMap::new(), open: BTreeMap::new(), max_clients, events: 0, refused_when_full: 0 };
+        let mut m = Model { generation: BTreeMap::new(), first_seen_gen: BTreeMap::new(), open: BTreeMap::new(), max_clients, ever_lowered: false, events: 0, refused_when_full: 0 };
         let timeout = ctx.src.pick(&[3i32, 2, 5]);
         ctx.op(&(max_clients, timeout));
         let max_ops = ctx.tier.pick(120, 400);
@@ -326,13 +332,25 @@ impl Property for C10 {
                     Op::Replay { of: i, from_own }
                 }
                 5 => {
-                    let to = (m.max_clients + 1 + ctx.src.below(2)).min(6);
+                    // raised, or lowered (also below the number of connected clients and below occupied slots: nobody is disconnected
+                    // by that, new handshakes are refused until enough clients have left)
+                    let lower = m.max_clients > 1 && ctx.src.chance(90);
+                    let to = if lower { 1 + ctx.src.below(m.max_clients - 1) } else { (m.max_clients + 1 + ctx.src.below(2)).min(6) };
+                    let connected_now = nw.servers[0].server.connected_clients();
                     nw.servers[0].server.set_max_clients(to);
                     if nw.servers[0].server.max_clients() != to {
                         return Err(Fail::new("max_clients_not_set", "set_max_clients did not change max_clients()"));
                     }
+                    if nw.servers[0].server.connected_clients() != connected_now {
+                        return Err(Fail::new("limit_change_dropped_clients", format!("set_max_clients({to}) changed the number of connected clients from {connected_now} to {}", nw.servers[0].server.connected_clients())));
+                    }
                     m.max_clients = to;
-                    ctx.label("limit_raised");
+                    if lower {
+                        m.ever_lowered = true;
+                        ctx.label("limit_lowered");
+                    } else {
+                        ctx.label("limit_raised");
+                    }
                     Op::RaiseLimit { to }
                 }
                 6 => {
